@@ -65,12 +65,12 @@ CHECKS = {
         note=E1_NOTE,
     ),
     "C10": dict(
-        engine="E1 sched + E2 crash",
+        engine="E1 sched + E2 crash + E3 ilv",
         category="model_checking",
         technique="explicit-state model checking of the real handlers with the real recovery sweep injected before every delivery of every order; plus crash-point enumeration comparing one vs. two sweeps",
-        text="A recovery sweep (run_recovery) injected in every reachable state of every delivery order, once or twice (also twice in a row), of every workload: outcome must stay within what is reachable without a sweep and no task may execute more often per arming than without a sweep. E2: at every crash image of 6 workloads, restart + one sweep vs. restart + two sweeps give the same outcome and execution counts.",
+        text="A recovery sweep (run_recovery) injected in every reachable state of every delivery order, once or twice (also twice in a row), of every workload: outcome must stay within what is reachable without a sweep and no task may execute more often per arming than without a sweep. E2: at every crash image of 6 workloads, restart + one sweep vs. restart + two sweeps give the same outcome and execution counts. E3: a real run_recovery() thread racing one handler (RunTask, StartTask, CompleteTask, StartStage, CompleteStage, polling RunTask, ContinueParentStage) at statement level under <=2 / <=3 preemptions.",
         design_ref="5 (C10)",
-        note=E1_NOTE + " The sweep || handler interleaving half (E3) is part of C04/C11's engine and is not claimed here yet.",
+        note=E1_NOTE + "",
     ),
     "C12": dict(
         engine="E1 sched",
@@ -153,10 +153,10 @@ CHECKS = {
         note=E3_NOTE + " max_stage_wait_retries=20 so the engine's 1-hour give-up does not race the mutex waiter.",
     ),
     "C18": dict(
-        engine="E1 sched + E2 crash (+E3 via C07)",
+        engine="E1 sched + E2 crash + E3 ilv",
         category="model_checking",
         technique="explicit-state model checking of the real handlers with a persistent or transient signal injected in every reachable state; crash-point enumeration of suspend / resume runs",
-        text="Signal (persistent / transient) sent in every reachable state of A->gate->Z under all delivery orders with <=1 lost ack (quick; <=2 and a recovery sweep in thorough): without a signal the gate is durably SUSPENDED; a persistent signal is consumed exactly once, the suspending task runs suspend-then-resumed with the payload, buffer empty, workflow SUCCEEDED; a transient signal resumes iff the gate was durably SUSPENDED when it was handled. E2: every commit image of three runs (signal before start / with RunTask / after suspend) x 2 restart orders. The statement-level signal-vs-handler races are explored by C07's engine pairs.",
+        text="Signal (persistent / transient) sent in every reachable state of A->gate->Z under all delivery orders with <=1 lost ack (quick; <=2 and a recovery sweep in thorough): without a signal the gate is durably SUSPENDED; a persistent signal is consumed exactly once, the suspending task runs suspend-then-resumed with the payload, buffer empty, workflow SUCCEEDED; a transient signal resumes iff the gate was durably SUSPENDED when it was handled. E2: every commit image of three runs (signal before start / with RunTask / after suspend) x 2 restart orders. E3: persistent SignalStage racing RunTask-that-suspends / StartStage claim / StartTask at statement level, <=2 (quick) / <=3 (thorough) preemptions.",
         design_ref="5 (C18)",
         note=E1_NOTE,
     ),
